@@ -265,6 +265,11 @@ func (c WLCfg) build() builtWL {
 		if err != nil {
 			b.Err = err.Error()
 		}
+		// the slice belongs to the caller, who is free to reuse it: a word list that aliases
+		// it would now generate these markers instead of words
+		for i := range in {
+			in[i] = "\x00reused-by-caller"
+		}
 	}
 	b.List = wl
 	r := spg.NewWLRecipe(c.Length, wl)
